@@ -223,6 +223,13 @@ def run_case(cs):
         os.makedirs(os.path.join(bare, "sub"))
         with open(os.path.join(bare, "sub", "x.bin"), "wb") as fh:
             fh.write(b"x")
+        if rng.random() < 0.5:
+            # histories further down do not make the folder itself a history
+            os.makedirs(os.path.join(bare, "sub", "sealed"))
+            with open(os.path.join(bare, "sub", "sealed", "y.bin"), "wb") as fh:
+                fh.write(b"y")
+            drive.run("create", [os.path.join(bare, "sub", "sealed"), "-h", "md5"])
+            cs.count("no_history_with_nested_below")
         for argv in ([bare], ["-sf", os.path.join(bare, "sub", "x.bin")]):
             r = drive.run("info", argv)
             cs.evaluated()
